@@ -28,6 +28,8 @@ pub struct LiftRegistry {
     pub structs: HashMap<String, Vec<(String, String)>>,
     /// fn name -> (param types incl. receiver, return type)
     pub fns: HashMap<String, (Vec<String>, String)>,
+    /// bare (glob-imported) enum variant -> (full lifted path, lifted enum type, payload types)
+    pub variants: HashMap<String, (String, String, Vec<String>)>,
 }
 
 #[derive(Clone, Debug)]
@@ -369,9 +371,11 @@ impl<'a> Lifter<'a> {
                     let ty = segs[segs.len() - 2].clone();
                     return Ok(v(segs.join("::"), &ty));
                 }
+                if false {
+                }
                 // bare variant imported by glob (e.g. DV, DT)
-                if let Some(t) = self.reg.types.get(&s) {
-                    return Ok(v(s, t));
+                if let Some((full, ty, _)) = self.reg.variants.get(&s) {
+                    return Ok(v(full.clone(), ty));
                 }
                 Err(format!("construct outside rule list (lift): unknown name `{s}`"))
             }
@@ -471,6 +475,10 @@ impl<'a> Lifter<'a> {
                 let mut parts = Vec::new();
                 for fv in &s.fields {
                     let syn::Member::Named(n) = &fv.member else { return unsupported("tuple struct literal", e) };
+                    if !fields.iter().any(|(k, _)| n == k) {
+                        self.note("L10", fv.span(), &format!("field `{n}` is not part of the lifted struct: initialiser dropped"));
+                        continue;
+                    }
                     let x = self.expr(&fv.expr)?;
                     let want = fields.iter().find(|(k, _)| n == k).map(|(_, t)| t.clone()).unwrap_or_default();
                     if want != x.ty && !x.ty.contains('?') {
@@ -544,6 +552,9 @@ impl<'a> Lifter<'a> {
             syn::Pat::Ident(i) => {
                 // a bare identifier could be a glob-imported unit variant; treat lower-case as binding
                 let n = i.ident.to_string();
+                if let Some((full, _, _)) = self.reg.variants.get(&n) {
+                    return Ok(full.clone());
+                }
                 if n.chars().next().map(|c| c.is_uppercase()).unwrap_or(false) {
                     return Ok(n);
                 }
@@ -578,6 +589,15 @@ impl<'a> Lifter<'a> {
                     }
                 }
                 let last = segs.last().unwrap().clone();
+                if segs.len() == 1 {
+                    if let Some((full, _, ptys)) = self.reg.variants.get(&last).cloned() {
+                        let mut out = Vec::new();
+                        for (k, el) in ts.elems.iter().enumerate() {
+                            out.push(self.pattern(el, ptys.get(k).map(|s| s.as_str()).unwrap_or("?"))?);
+                        }
+                        return Ok(format!("{full}({})", out.join(", ")));
+                    }
+                }
                 let inner_tys: Vec<String> = match last.as_str() {
                     "Some" => vec![ty.strip_prefix("Option<").map(|s| s[..s.len() - 1].to_string()).unwrap_or("?".into())],
                     "Ok" => vec![ty.strip_prefix("Result<").map(|s| split_top(&s[..s.len() - 1])[0].trim().to_string()).unwrap_or("?".into())],
@@ -1123,8 +1143,24 @@ impl<'a> Lifter<'a> {
             if args.len() != ptys.len() {
                 return Err(format!("construct outside rule list (lift): call of `{key}` with {} args, declared {}", args.len(), ptys.len()));
             }
+            // L9: a scalar function applied to arrays is applied element-wise
+            let arr: Vec<usize> = (0..args.len()).filter(|&i| ptys[i] == "real" && args[i].ty == "RArr").collect();
+            if !arr.is_empty() && rty == "real" {
+                let first = args[arr[0]].text.clone();
+                let parts: Vec<String> = args
+                    .iter()
+                    .enumerate()
+                    .map(|(i, a)| if arr.contains(&i) { format!("({}.at)(i__)", a.text) } else { a.text.clone() })
+                    .collect();
+                self.note("L9", whole.span(), &format!("scalar spec fn `{key}` applied element-wise"));
+                return Ok(v(format!("RArr {{ len: {first}.len, at: |i__: int| crate::{key}({}) }}", parts.join(", ")), "RArr"));
+            }
+            let arr2: Vec<usize> = (0..args.len()).filter(|&i| ptys[i] == "real" && args[i].ty == "RArr2").collect();
+            if !arr2.is_empty() && rty == "real" {
+                return unsupported("element-wise call on 2-D arrays", whole);
+            }
             self.note("L13", whole.span(), &format!("call lifted to spec fn `{key}`"));
-            return Ok(v(format!("{key}({})", args.iter().map(|a| a.text.clone()).collect::<Vec<_>>().join(", ")), &rty));
+            return Ok(v(format!("crate::{key}({})", args.iter().map(|a| a.text.clone()).collect::<Vec<_>>().join(", ")), &rty));
         }
         // enum tuple variant constructor
         if p.path.segments.len() >= 2 {
@@ -1147,12 +1183,12 @@ impl<'a> Lifter<'a> {
             }
         }
         if p.path.segments.len() == 1 {
-            if let Some(t) = self.reg.types.get(&format!("variant {last}")) {
+            if let Some((full, ty, _)) = self.reg.variants.get(&last).cloned() {
                 let mut args = Vec::new();
                 for a in &c.args {
                     args.push(self.expr(a)?.text);
                 }
-                return Ok(v(format!("{last}({})", args.join(", ")), t));
+                return Ok(v(format!("{full}({})", args.join(", ")), &ty));
             }
         }
         Err(format!("construct outside rule list (lift): call of `{path}` (no //@lextern / //@lift for `{key}`)"))
@@ -1286,7 +1322,7 @@ impl<'a> Lifter<'a> {
             let mut all = vec![recv.text.clone()];
             all.extend(args.iter().map(|a| a.text.clone()));
             self.note("L13", whole.span(), &format!("method call lifted to spec fn `{name}`"));
-            return Ok(v(format!("{name}({})", all.join(", ")), &rty));
+            return Ok(v(format!("crate::{name}({})", all.join(", ")), &rty));
         }
         Err(format!(
             "construct outside rule list (lift): method `.{name}()` on {} (no //@lextern / //@lift for it) in `{}`",
@@ -1389,6 +1425,15 @@ pub fn lenum(ctx: &mut Ctx, blk: &Block) -> Result<(String, Value), String> {
     let (s0, e0) = offs.range(src, en.span());
     let rep = json!({"item": format!("enum {name} (lifted)"), "file": file, "src_lines": [line_of(src, s0), line_of(src, e0)], "src_bytes": [s0, e0], "mode": "lift"});
     ctx.lift.types.insert(name.clone(), lname.clone());
+    for vv in &en.variants {
+        let full = format!("{lname}::{}", vv.ident);
+        let ptys: Vec<String> = payloads
+            .iter()
+            .find(|(k, _)| *k == full)
+            .map(|(_, t)| split_top(t.trim_start_matches('(').trim_end_matches(')')).iter().map(|s| s.trim().to_string()).collect())
+            .unwrap_or_default();
+        ctx.lift.variants.insert(vv.ident.to_string(), (full, lname.clone(), ptys));
+    }
     for (k, t) in payloads {
         ctx.lift.types.insert(k, t);
     }
@@ -1521,7 +1566,7 @@ pub fn lift_fn(ctx: &mut Ctx, blk: &Block) -> Result<(String, Value), String> {
             in_value: 0,
         };
         let body = l.stmts_with_cont(&f.block.stmts, None)?;
-        let rty = if observe.is_some() { body.ty.clone() } else { ret_ty.clone() };
+        let rty = if observe.is_some() || ret_ty.contains('?') { body.ty.clone() } else { ret_ty.clone() };
         if observe.is_none() && body.ty != ret_ty && !body.ty.contains('?') && !ret_ty.contains('?') {
             return Err(format!("construct outside rule list (lift): body of {path} has type {} but the signature says {}", body.ty, ret_ty));
         }
